@@ -722,13 +722,19 @@ func writeTypeConversion(w *formatting.IndentedWriter, typeChange dsl.TypeChange
 		if !isFixedLength {
 			fmt.Fprintf(w, "%s.resize(%s.size());\n", targetName, sourceName)
 		}
-		fmt.Fprintf(w, "for (size_t i = 0; i < %s.size(); i++) {\n", sourceName)
+		// Vectors of vectors produce nested loops, which need distinct variable names
+		indexName := "i"
+		tmpItemName := "item"
+		if depth := strings.Count(sourceName, "["); depth > 0 {
+			indexName = fmt.Sprintf("i%d", depth)
+			tmpItemName = fmt.Sprintf("item%d", depth)
+		}
+		fmt.Fprintf(w, "for (size_t %s = 0; %s < %s.size(); %s++) {\n", indexName, indexName, sourceName, indexName)
 		w.Indented(func() {
-			tmpItemName := "item"
 			tmpItemType := common.TypeSyntax(tc.InnerChange.NewType())
 			fmt.Fprintf(w, "%s %s = {};\n", tmpItemType, tmpItemName)
-			writeTypeConversion(w, tc.InnerChange, fmt.Sprintf("%s[i]", sourceName), tmpItemName, write)
-			fmt.Fprintf(w, "%s[i] = %s;\n", targetName, tmpItemName)
+			writeTypeConversion(w, tc.InnerChange, fmt.Sprintf("%s[%s]", sourceName, indexName), tmpItemName, write)
+			fmt.Fprintf(w, "%s[%s] = %s;\n", targetName, indexName, tmpItemName)
 		})
 		fmt.Fprintf(w, "}\n")
 
